@@ -65,28 +65,30 @@ Theorem C18_list_complete : forall rows p s d o r, (o_limit o < 0)%Z ->
   In r rows -> row_matches p s d o r = true -> In r (db_list rows p s d o).
 Proof. exact db_list_complete. Qed.
 
-(** Order of the listing.  The code orders by tsb, not by rowid.  Full statement: the
-    listing shows the matching rows in submission order (the first [limit] with -a, the last
-    [limit] without).  It is false when two rows carry the same tsb (two `history add`
-    without -t both get 0; the default listing then shows them newest first and a small
-    limit keeps the OLDEST of the tied group): refuted, recorded class list-tie-order.  It
-    holds whenever tsb increases strictly along the table -- which is what the code relies
-    on for lines typed at the prompt: the wall clock read before each command, at nanosecond
-    resolution (about 240 ns after conversion to f64), never repeating or stepping back
-    between two submissions; C18_insert_keeps_order says recording preserves it. *)
+(** Order of the listing (code as repaired by 6b3083d: ORDER BY tsb, rowid / order by tsb
+    desc, rowid desc, the latter reversed before printing).  Full statement: for every
+    table whose rowids increase along it (sqlite's allocation: C18_insert_keeps_order) and
+    whose tsb never decreases along it, the listing is the matching rows IN SUBMISSION
+    ORDER -- the first [limit] of them with -a, the last [limit] without.  Equal tsb are
+    allowed (every history add without -t gets 0).  What the code still relies on for
+    lines typed at the prompt is that the wall clock read before each command does not
+    step back between two submissions. *)
 Definition list_spec (rows : list row) (p s d : str) (o : lopts) : list row :=
   let m := filter (row_matches p s d o) rows in
   if o_asc o then take_limit (o_limit o) m else rev (take_limit (o_limit o) (rev m)).
-Definition C18_order_full : Prop := forall rows p s d o, db_list rows p s d o = list_spec rows p s d o.
-Theorem C18_order_refuted : ~ C18_order_full.
-Proof. intro H. specialize (H tie_rows [] [] [] (mko false false false 20%Z)). rewrite tie_listing in H. discriminate H. Qed.
-Definition Known_C18_order (rows : list row) : bool := negb (incrb rows).
-Theorem C18_order_partial : forall rows p s d o, Known_C18_order rows = false ->
+Theorem C18_order_full : forall rows p s d o, ids_incr rows = true -> tsb_nondecr rows = true ->
   db_list rows p s d o = list_spec rows p s d o.
-Proof. intros rows p s d o K. apply negb_false_iff in K. now apply list_in_submission_order. Qed.
-Theorem C18_insert_keeps_order : forall rows inp tsb s i, incrb rows = true ->
-  forallb (fun r => (r_tsb r <? tsb)%Z) rows = true -> incrb (db_insert rows inp tsb s i) = true.
+Proof. exact list_order. Qed.
+Theorem C18_insert_keeps_order : forall rows inp tsb s i, ids_incr rows = true -> tsb_nondecr rows = true ->
+  forallb (fun r => (r_tsb r <=? tsb)%Z) rows = true ->
+  ids_incr (db_insert rows inp tsb s i) = true /\ tsb_nondecr (db_insert rows inp tsb s i) = true.
 Proof. exact insert_keeps_order. Qed.
+(** non-vacuity / regression witness: three rows with tsb 0 list as submitted; limit 2 keeps the two newest *)
+Example C18_order_ties :
+  ids_incr tie_rows = true /\ tsb_nondecr tie_rows = true /\
+  db_list tie_rows [] [] [] (mko false false false 20%Z) = tie_rows /\
+  db_list tie_rows [] [] [] (mko false false false 2%Z) = [mkrow 2 [98] 0%Z [] []; mkrow 3 [99] 0%Z [] []].
+Proof. repeat split. Qed.
 
 (** Search has no false negatives: a row whose text contains the pattern verbatim
     matches, whatever percent signs / underscores the pattern holds (they only add matches). *)
@@ -172,8 +174,7 @@ Print Assumptions C18_row_matches.
 Print Assumptions C18_list_sound.
 Print Assumptions C18_list_complete.
 Print Assumptions C18_search_complete.
-Print Assumptions C18_order_refuted.
-Print Assumptions C18_order_partial.
+Print Assumptions C18_order_full.
 Print Assumptions C18_insert_keeps_order.
 Print Assumptions C18_delete_exact.
 Print Assumptions C18_delete_text.
